@@ -756,6 +756,23 @@ func (q *qworld) onCommitDone(op *opResult) {
 	rc := op.receipt
 	q.acks++
 	q.r.Probe("commit_acked")
+	// ---- receipt well-formedness first (everything below indexes by it) -------------
+	if rc.Authority != op.auth.ID || rc.CommandID != cmd.id {
+		q.fail("range-shape", "identity", fmt.Sprintf("c%d: receipt %+v does not echo authority/command of the proposal", op.channel, rc), nil)
+		return
+	}
+	if rc.Last < rc.First || int(rc.Last-rc.First+1) != cmd.n || rc.First == 0 {
+		q.fail("range-shape", "length", fmt.Sprintf("c%d: receipt [%d..%d] for a %d-record command", op.channel, rc.First, rc.Last, cmd.n), nil)
+		return
+	}
+	v := q.view(n, cs)
+	// ---- C01 (i): the receipt is truthful. Checked before the C03/C04 history
+	// checks: an acknowledgement that is not quorum-durable (a C01 matter) would
+	// otherwise surface as overlapping receipts later.
+	ids, ok := q.checkTruthful(op, v)
+	if !ok {
+		return
+	}
 	// ---- C04: authority / fence ------------------------------------------------
 	if cur, ok := cs.installedOK[op.node]; ok && n.inc == op.nodeInc && cmpAuth(cur.ID, op.auth.ID) > 0 {
 		q.fail("stale-authority-acked", "", fmt.Sprintf("c%d n%d: Commit under %v acknowledged although Install(%v) had succeeded on this owner before the commit was invoked", op.channel, op.node, op.auth.ID, cur.ID), nil)
@@ -763,8 +780,8 @@ func (q *qworld) onCommitDone(op *opResult) {
 	if op.auth.WriteFence.Set() {
 		q.fail("fenced-append-acked", "commit", fmt.Sprintf("c%d n%d: Commit acknowledged under a fenced authority", op.channel, op.node), nil)
 	}
-	if rc.Authority != op.auth.ID || rc.CommandID != cmd.id {
-		q.fail("range-shape", "identity", fmt.Sprintf("c%d: receipt %+v does not echo authority/command of the proposal", op.channel, rc), nil)
+	if q.tainted || q.r.Failed() {
+		return
 	}
 	// ---- C03: exact, contiguous, retry-stable ------------------------------------
 	variant := 1
@@ -780,9 +797,6 @@ func (q *qworld) onCommitDone(op *opResult) {
 	if cmd.ackedVariant == 0 && op.conflicting {
 		q.r.Probe("conflicting_variant_acked_first")
 	}
-	if rc.Last < rc.First || int(rc.Last-rc.First+1) != cmd.n || rc.First == 0 {
-		q.fail("range-shape", "length", fmt.Sprintf("c%d: receipt [%d..%d] for a %d-record command", op.channel, rc.First, rc.Last, cmd.n), nil)
-	}
 	if cmd.acked {
 		if cmd.first != rc.First || cmd.last != rc.Last {
 			q.fail("retry-range-changed", "", fmt.Sprintf("c%d: command %x acknowledged at [%d..%d] and again at [%d..%d]", op.channel, cmd.id[:3], cmd.first, cmd.last, rc.First, rc.Last), nil)
@@ -795,7 +809,6 @@ func (q *qworld) onCommitDone(op *opResult) {
 			}
 		}
 	}
-	v := q.view(n, cs)
 	// (the two log-end comparisons below need a quiet owner: under the
 	// adversarial control plane another authority may write to this node's log
 	// as a follower between invocation and acknowledgement)
@@ -807,16 +820,38 @@ func (q *qworld) onCommitDone(op *opResult) {
 		// a new command must start right after the previous log end of its leader
 		q.fail("range-not-contiguous", "", fmt.Sprintf("c%d n%d: new command %x acknowledged at [%d..%d] but the leader log end before the call was %d", op.channel, op.node, cmd.id[:3], rc.First, rc.Last, op.leoBefore), nil)
 	}
-	// ---- C01 (i): the receipt is truthful ----------------------------------------
-	if v.err != nil || v.leo < rc.Last {
-		q.fail("ack-not-quorum", "leader", fmt.Sprintf("c%d: receipt [%d..%d] from n%d but its durable log ends at %d (err=%v)", op.channel, rc.First, rc.Last, op.node, v.leo, v.err), nil)
+	if q.tainted || q.r.Failed() {
 		return
 	}
+	for i, id := range ids {
+		seq := rc.First + uint64(i)
+		cs.ledger[seq] = ledgerEntry{identity: id, payload: string(cmd.records[i].Payload), cmd: int(cmd.id[1])<<8 | int(cmd.id[2]), ackStep: q.r.Steps, invoked: op.invoked}
+	}
+	if !cmd.acked {
+		cmd.acked, cmd.first, cmd.last, cmd.ackAuth = true, rc.First, rc.Last, rc.Authority
+		cmd.ackedVariant = variant
+	}
+	if q.holdersBareQuorum(cs, rc.Last) {
+		q.r.Probe("ack_on_bare_quorum")
+	}
+}
+
+// checkTruthful is C01 (i): at the moment the receipt is observed, the leader
+// and at least Q-1 other voters hold exactly the acknowledged identities in
+// their durable logs. It returns those identities.
+func (q *qworld) checkTruthful(op *opResult, v replicaView) ([]ch.EntryIdentity, bool) {
+	cs := q.chans[op.channel]
+	rc, cmd := op.receipt, op.cmd
+	if v.err != nil || v.leo < rc.Last {
+		q.fail("ack-not-quorum", "leader", fmt.Sprintf("c%d: receipt [%d..%d] from n%d but its durable log ends at %d (err=%v)", op.channel, rc.First, rc.Last, op.node, v.leo, v.err), nil)
+		return nil, false
+	}
+	ids := make([]ch.EntryIdentity, 0, rc.Last-rc.First+1)
 	for seq := rc.First; seq <= rc.Last; seq++ {
 		id := v.ids[seq-1]
 		if id.CommandID != cmd.id {
 			q.fail("ack-not-quorum", "leader-content", fmt.Sprintf("c%d: leader n%d holds another command at acknowledged seq %d", op.channel, op.node, seq), nil)
-			return
+			return nil, false
 		}
 		holders := 0
 		for _, oid := range q.ids {
@@ -835,21 +870,15 @@ func (q *qworld) onCommitDone(op *opResult) {
 				}
 			}
 			q.fail("ack-not-quorum", sig, fmt.Sprintf("c%d: receipt [%d..%d] from n%d but seq %d is durable on only %d voter(s), write quorum %d", op.channel, rc.First, rc.Last, op.node, seq, holders, q.cfg.Q), nil)
-			return
+			return nil, false
 		}
 		if prev, ok := cs.ledger[seq]; ok && prev.identity != id {
 			q.fail("ack-replaced", "double-ack", fmt.Sprintf("c%d: seq %d acknowledged twice with different identities (cmd %d, then %x)", op.channel, seq, prev.cmd, cmd.id[:3]), nil)
-			return
+			return nil, false
 		}
-		cs.ledger[seq] = ledgerEntry{identity: id, payload: string(cmd.records[seq-rc.First].Payload), cmd: int(cmd.id[1])<<8 | int(cmd.id[2]), ackStep: q.r.Steps, invoked: op.invoked}
+		ids = append(ids, id)
 	}
-	if !cmd.acked {
-		cmd.acked, cmd.first, cmd.last, cmd.ackAuth = true, rc.First, rc.Last, rc.Authority
-		cmd.ackedVariant = variant
-	}
-	if q.holdersBareQuorum(cs, rc.Last) {
-		q.r.Probe("ack_on_bare_quorum")
-	}
+	return ids, true
 }
 
 func (q *qworld) holdersBareQuorum(cs *chanState, seq uint64) bool {
